@@ -4,6 +4,8 @@ Deciding oracle (boundary): the result's columns equal the list computed by an i
 implementation of the documented rule; every projected cell equals the cell of that attribute in
 the source row identified by the row's key (missing == missing), for rows produced by the normal,
 empty-set and missing-value branches, for every join and every filter_tables."""
+import decimal
+import fractions
 import random
 
 from rv import env, gen, model, monitors, oracle
@@ -79,6 +81,13 @@ def make_tables(rng, qgram):
             'key': (['k%d' % rng.randint(0, 5) for _ in range(n)], 'object'),
             side + 'k': ([rng.randint(0, 3) for _ in range(n)], 'int64'),
             'e': (['e%d' % i for i in range(n)], 'object'),
+            # object cells that some constructors / helpers do not treat as opaque scalars: Decimal and
+            # Fraction (not exactly representable as floats), tuples of length 0, 1 and 2, lists, bytes
+            side + 'cell': ([rng.choice([decimal.Decimal('1.10'), decimal.Decimal('0.1'), fractions.Fraction(1, 3),
+                                         ('x',), ('a', 'b'), (1, 2), (), None, fractions.Fraction(7, 2), b'by',
+                                         frozenset(['q'])]) for _ in range(n)], 'object'),
+            side + 'dec': ([rng.choice([decimal.Decimal('1.10'), decimal.Decimal('2.5'), decimal.Decimal('0.3'),
+                                        fractions.Fraction(2, 3)]) for _ in range(n)], 'object'),
         }
         names = list(extras)
         rng.shuffle(names)
@@ -114,6 +123,8 @@ def pick_attrs(rng, spec, key, join):
         c = list(cols)
         rng.shuffle(c)
         return c
+    if r < 0.72:
+        return [rng.choice(cols)]           # exactly one attribute
     sel = [rng.choice(cols) for _ in range(rng.randint(1, 6))]
     return sel
 
